@@ -957,19 +957,27 @@ func (w *e2World) roundX(h uint64, r uint32, keep bool) *e2Round {
 		rd.cands = append(rd.cands, w.newBlock(h, r, proposer, fmt.Sprintf("data_%d_%d_%d", h, r, i), acceptable))
 	}
 	if old, ok := w.quorumB[h]; ok && !w.cfg.planned && w.rng.IntN(2) == 0 {
-		// a block of an earlier round of this height may be proposed again
-		for _, ord := range w.rounds {
-			if ord.h != h {
+		// a block of an earlier round of this height may be proposed again: one copy of it
+		// (every earlier round may hold a copy already; copying them all doubles the candidate
+		// pool with every round, which made a 40-round height take minutes)
+		var again *e2Block
+		for _, k := range w.sortedRounds() {
+			ord := w.rounds[k]
+			if ord.h != h || again != nil {
 				continue
 			}
 			for _, b := range ord.cands {
 				if b.hash == old {
-					nb := *b
-					nb.ph.Round = r
-					w.fx.SignProposal(context.Background(), &nb.ph, 1%w.cfg.nVals)
-					rd.cands = append(rd.cands, &nb)
+					again = b
+					break
 				}
 			}
+		}
+		if again != nil {
+			nb := *again
+			nb.ph.Round = r
+			w.fx.SignProposal(context.Background(), &nb.ph, 1%w.cfg.nVals)
+			rd.cands = append(rd.cands, &nb)
 		}
 	}
 	switch x := w.rng.IntN(100); {
